@@ -44,8 +44,40 @@ def gen_cancel_stress(rng: random.Random, clock: str):
     return prog
 
 
+FINE = 2 ** 40      # fine exact scale: case times in units of 2**-40 (see sim_driver "scale")
+
+
+def gen_fine(rng: random.Random, n_handlers=None):
+    """events whose times differ by one to three steps of 2**-40 (relative 1e-15 .. 1e-12), with priorities and
+    scheduling order arranged against the time order: a comparison of times with a tolerance reorders them"""
+    n = n_handlers or rng.randint(3, 6)
+    prog = [[] for _ in range(n + 1)]
+    bases = [FINE * rng.randint(1, 12) for _ in range(rng.randint(1, 3))]
+    acts = []
+    for _ in range(rng.randint(4, 10)):
+        t0, d = rng.choice(bases), rng.randint(0, 3)
+        prio = [1, 3, 5, 7][d] if rng.random() < 0.7 else rng.choice(S.PRIOS)      # the later, the higher the priority
+        acts.append((d, ["sched", ["abs", t0 + d], prio, rng.randint(1, n)]))
+    if rng.random() < 0.6:
+        acts.sort(key=lambda x: -x[0])                                                  # the later, the earlier scheduled
+    prog[0] = [a for _, a in acts]
+    for h in range(1, n + 1):
+        for _ in range(rng.randint(0, 2)):
+            r = rng.random()
+            if r < 0.2:
+                prog[h].append(["cancel", rng.randint(0, len(acts) + 2)])
+            elif h < n:
+                prog[h].append(["sched", ["rel", rng.choice([0, 1, 1, 2, 3, FINE, FINE + 1, FINE - 1])],
+                                rng.choice(S.PRIOS), rng.randint(h + 1, n)])
+    end = FINE * rng.randint(12, 15) + rng.choice([0, 0, 1, 2])
+    return prog, ["init", 0, rng.choice(bases) + rng.randint(0, 3) if rng.random() < 0.5 else 0, end]
+
+
 def gen_case(rng: random.Random, i: int) -> dict:
     clock = S.CLOCKS[i % len(S.CLOCKS)]
+    if i % 8 in (5, 6):      # clocks dur / durmin slots: fine scale on the Duration (seconds) and float clocks
+        prog, init = gen_fine(rng)
+        return {"clock": "dur" if i % 8 == 5 else "float", "scale": 40, "strategy": "pause", "prog": prog, "cmds": [init, ["start"]]}
     if i % 3 == 2:
         u = S.unit_of(clock)
         prog = gen_cancel_stress(rng, clock)
@@ -346,7 +378,9 @@ def main(tier: str, pid=PID, gen=gen_case, oracle_fn=oracle, n_quick=4000, n_tho
     run.cov["rule"] = rule or ("generated model programs (DAG of handlers + optional self-rescheduling handler; now/relative/absolute "
                                "scheduling, zero delays, exact ties, priorities 1..10, cancels of pending/executed events, illegal requests incl. NaN and, on "
                                "float / Duration clocks, negative delays below half an ulp of the clock (-1e-15, -5e-324, -2^-60) and times a few ulps before the clock; "
-                               "every third case a cancel-stress program: 7-16 events pending at once, handlers that mostly cancel) "
+                               "every third case a cancel-stress program: 7-16 events pending at once, handlers that mostly cancel; a quarter of the cases on a "
+                               "second exact scale of 2^-40 time units (Duration / float clocks) with event times one to three steps apart and "
+                               "priorities / scheduling order arranged against the time order) "
                                "x 4 clock kinds (int, float, Duration s, Duration min), run with initialize+start; non-trivial = distinct case "
                                "executing >= 3 events and exercising at least one of: time tie, cancel of a pending event, illegal request, zero delay")
     run.cov["feature_histogram"] = hist
